@@ -4,7 +4,7 @@ partitions) against one simulated world with a reference DC and one shared
 KeyCache, and returns a trace the oracles can judge.
 
 plan = {
-  "seed": int, "clock_ft": int,
+  "seed": int, "clock_ft": int, "clock_tick_ns": int (time passing per reading of the clock; 0 = frozen during a call),
   "root_keys": [[idx, hash, secret], ...],          # known to the DC; index = position in this list
   "dc": {"omit_l2_at_31": bool, "skew_ticks": int, "domain": str, "forest": str, "pad_mode": str, "header_sign": bool, "byz": {}},
   "ctx": {"kind": "stub", "legs": 2, "sig": 16} | {"kind": "ntlm"} | {"kind": "negotiate"},
@@ -17,6 +17,8 @@ plan = {
            {"op": "clock", "advance_ticks": n} | {"op": "clock", "set_ft": n},
            {"op": "identity", "sids": [...]}          # the authenticated caller's group memberships from now on
            {"op": "partition", "on": bool},
+           # fl "thread" + group g: the group's operations are sync calls made by caller threads that share the process, interleaved at
+           # line (or opcode) events inside dpapi_ng by simworld.threads (policy: plan["threads"], explicit per group: plan["thread_scripts"])
          ] }
 """
 from __future__ import annotations
@@ -32,6 +34,7 @@ from checks import common, drive, offline
 from ref import cms, dtyp, gkdi, refdc
 from simworld import loop as simloop
 from simworld import secctx, world as W
+from simworld import threads as simthreads
 
 NTLM_USER, NTLM_PASS, NTLM_DOMAIN = "simuser", "S1mPassw0rd!", "SIMDOM"
 _ntlm_dir: t.Optional[str] = None
@@ -51,6 +54,13 @@ def ensure_ntlm_env() -> None:
         pid = os.getpid()
         atexit.register(lambda: os.getpid() == pid and shutil.rmtree(d, ignore_errors=True))
     os.environ["NTLM_USER_FILE"] = os.path.join(_ntlm_dir, "users")
+
+
+def SRC_PREFIX() -> str:
+    """Directory of the code under test (pre-emption points of the thread scheduler are the line events below it)."""
+    import dpapi_ng
+
+    return os.path.dirname(os.path.abspath(dpapi_ng.__file__)) + os.sep
 
 
 def data_bytes(n: int, salt: int = 0) -> bytes:
@@ -88,6 +98,7 @@ class Trace:
         self.record: list = []
         self.cache = None
         self.schedule: t.List[str] = []
+        self.thread_scripts: t.Dict[str, dict] = {}
         self.is_child = False
         self.child_pid = 0
         self.child_rfd = -1
@@ -151,6 +162,7 @@ def execute_plan(plan: dict, kdf_limit: int = 300, keep_events: bool = False) ->
     world.keep_events = keep_events
     tr.world = world
     world.clock.set_filetime(plan.get("clock_ft", 133_400_000_000_000_000))
+    world.clock.tick_per_read_ns = int(plan.get("clock_tick_ns", 0))  # the wall clock moves between two readings (also inside one call)
     rks = [offline.synth_root_key(*spec) for spec in plan.get("root_keys", [[0, "SHA512", "DH"]])]
     tr.root_keys = rks
     ctxcfg = plan.get("ctx") or {"kind": "stub", "legs": 2, "sig": 16}
@@ -295,9 +307,9 @@ def execute_plan(plan: dict, kdf_limit: int = 300, keep_events: bool = False) ->
                     continue
                 # API operations: collect a concurrent group of async ops
                 group = [i]
-                if op.get("fl") == "async" and op.get("group") is not None:
+                if op.get("fl") in ("async", "thread") and op.get("group") is not None:
                     j = i + 1
-                    while j < len(ops) and ops[j].get("op") in ("protect", "unprotect") and ops[j].get("fl") == "async" and ops[j].get("group") == op["group"]:
+                    while j < len(ops) and ops[j].get("op") in ("protect", "unprotect") and ops[j].get("fl") == op["fl"] and ops[j].get("group") == op["group"]:
                         group.append(j)
                         j += 1
                 prepared = []
@@ -331,6 +343,46 @@ def execute_plan(plan: dict, kdf_limit: int = 300, keep_events: bool = False) ->
                         world.log("op.return", i, ot.outcome.brief())
                         ot.return_seq = world.seq
                         tr.ops.append(ot)
+                    elif op.get("fl") == "thread":
+                        # caller threads sharing the process (and the cache): the sync API under the deterministic thread scheduler
+                        kb.count = 0
+                        kb.limit = kdf_limit * len(group)
+
+                        def body(ot, mk):
+                            name, args, kw = mk("sync")
+
+                            def run():
+                                ot.clock_ft = world.clock.filetime()
+                                ot.invoke_seq = world.seq
+                                world.log("op.invoke", ot.idx, name)
+                                if name == "unprotect" and args[0] is None:
+                                    ot.outcome = drive.Outcome("raise", exc=ValueError("source blob missing"))
+                                else:
+                                    ot.outcome = drive.classify(lambda: offline.call_api(world, "sync", name, *args, **kw))
+                                world.log("op.return", ot.idx, ot.outcome.brief())
+                                ot.return_seq = world.seq
+
+                            return run
+
+                        world.entropy.op = "tgroup%d" % i
+                        pol = (plan.get("thread_scripts") or {}).get(str(i)) or plan.get("threads") or {"mode": "prob", "p": 0.02}
+                        tsim = simthreads.ThreadSim(random.Random(sched_rng.getrandbits(32)), SRC_PREFIX(), pol, granularity=pol.get("gran", "line"),
+                                                    on_switch=lambda s, a, b_: world.log("thread.switch", s, a, b_))
+                        try:
+                            results = tsim.run([body(ot, mk) for ot, mk in prepared])
+                        except simthreads.Wedged as e:
+                            raise common.HarnessError(str(e))
+                        world.stats["tswitch"] += len(tsim.switches)
+                        world.stats["toverlap"] += tsim.overlap
+                        world.stats["tsteps"] += tsim.steps
+                        tr.thread_scripts[str(i)] = dict(tsim.script(), gran=pol.get("gran", "line"))
+                        tr.schedule.append("T%d:%d:%s" % (i, tsim.first, ",".join("%d@%d>%d" % (a_, k_, to) for a_, k_, to in tsim.switches[:64])))
+                        for (ot, _mk), (_res, exc) in zip(prepared, results):
+                            if ot.outcome is None:
+                                ot.outcome = drive.Outcome("budget", exc=exc) if isinstance(exc, simthreads.StepLimit) else drive.Outcome("raise", exc=exc if isinstance(exc, Exception) else RuntimeError(repr(exc)))
+                                ot.return_seq = world.seq
+                            ot.kdf_calls = kb.count
+                            tr.ops.append(ot)
                     else:
                         kb.count = 0
                         kb.limit = kdf_limit * len(group)
@@ -396,3 +448,34 @@ def execute_plan(plan: dict, kdf_limit: int = 300, keep_events: bool = False) ->
                         ot.getkeys = list(new_gk)  # shared by the concurrent group (attributed by the oracle through SD / position)
                 i = group[-1] + 1
     return tr
+
+
+def thread_shrinks(case: dict) -> t.Iterable[dict]:
+    """Minimise the interleaving of a plan with thread groups: pin the schedule actually taken as an explicit list of
+    pre-emptions (replay then no longer depends on the PRNG), then drop pre-emptions while the violation stays."""
+    if not any(o.get("fl") == "thread" for o in case.get("ops", ())):
+        return
+    ts = case.get("thread_scripts")
+    if not ts:
+        try:
+            tr = execute_plan({k: v for k, v in case.items() if not k.startswith("_")})
+        except Exception:  # noqa: BLE001
+            return
+        if tr.thread_scripts:
+            yield dict(case, thread_scripts=tr.thread_scripts)
+        return
+    for gid, sc in ts.items():
+        sw = sc["switches"]
+        n = len(sw)
+        parts = 2
+        while parts <= 8 and n >= parts:  # ddmin: keep one part, then drop one part
+            size = (n + parts - 1) // parts
+            chunks = [sw[k : k + size] for k in range(0, n, size)]
+            for ch in chunks:
+                yield dict(case, thread_scripts=dict(ts, **{gid: dict(sc, switches=ch)}))
+            if parts > 2:
+                for k in range(len(chunks)):
+                    yield dict(case, thread_scripts=dict(ts, **{gid: dict(sc, switches=[x for j, ch in enumerate(chunks) if j != k for x in ch])}))
+            parts *= 2
+        for k in range(min(n, 32)):
+            yield dict(case, thread_scripts=dict(ts, **{gid: dict(sc, switches=sw[:k] + sw[k + 1 :])}))
